@@ -36,6 +36,9 @@ def spec_on_impl(o):
         return "size %d is rejected with %s" % (n, o["err"])
     outs = o["outs"] or []
     if o.get("class") == "jump":
+        if o.get("jump_got") != str(o.get("jump_target")) and o.get("jump_via"):
+            return "with the start element %s the element %d is not yielded: the walk is at %s (skipped or yielded), the next step gives %s (P=%s G'=%s)" % (
+                o["jump_start"], o["jump_target"], o["jump_via"], o.get("jump_got"), o["P"], o["G"])
         if o.get("jump_got") != str(o.get("jump_target")):
             return "the element %d is not yielded: one step from its predecessor on the cycle gives %s (P=%s G'=%s)" % (
                 o["jump_target"], o.get("jump_got"), o["P"], o["G"])
@@ -175,12 +178,13 @@ def run(ctx):
         ok, _ = ctx.harness_run("c04", ["-out", "jump.jsonl", "-jump"], timeout=600)
         jp = ctx.read_jsonl(os.path.join(ctx.work, "jump.jsonl")) if ok else []
         for o in jp:
-            ctx.count("jump", (o["n"], o["seed"], o.get("jump_target")), nontrivial=True)
+            ctx.count("jump", (o["n"], o["seed"], o.get("jump_target"), o.get("jump_start"), o.get("jump_via")), nontrivial=True)
             why = spec_on_impl(o)
             if why:
                 report(ctx, o, why)
         ctx.info.append("%d single steps from the predecessor of n, n-1, 1 and a middle element (both ends of every table row, "
-                        "2^32, 2^32-1, 2^31): the element must be yielded" % len(jp))
+                        "2^32, 2^32-1, 2^31) and from elements that agree with a chosen start element in their low 8/16/24/31/32 bits: "
+                        "the element must be yielded" % len(jp))
     if not quick and os.path.exists(os.path.join(verif.HBIN, "c04")):
         # exhaustive over every n <= 2048 under 8 seeds, and one complete walk of a 2^24 range (bitmap check)
         ok, _ = ctx.harness_run("c04", ["-out", "sweep.jsonl", "-sweep", "2048,8"], timeout=1200)
